@@ -888,6 +888,12 @@ func vfsUpstream(s *vfsStack) dnsserver.Handler {
 }
 
 func vfsNewStack(tb testing.TB, conf *vfsConfig) (s *vfsStack) {
+	return vfsNewStackGeo(tb, conf, nil)
+}
+
+// vfsNewStackGeo is vfsNewStack with the given GeoIP database instead of the
+// model one (nil = model).
+func vfsNewStackGeo(tb testing.TB, conf *vfsConfig, realGeo geoip.Interface) (s *vfsStack) {
 	s = &vfsStack{
 		conf:        conf,
 		live:        map[agd.RequestID]*vfsLive{},
@@ -983,7 +989,12 @@ func vfsNewStack(tb testing.TB, conf *vfsConfig) (s *vfsStack) {
 		return s.lookup(idx, ok)
 	}
 
+	var geoDB geoip.Interface = realGeo
 	geo := agdtest.NewGeoIP()
+	if realGeo == nil {
+		geoDB = geo
+	}
+
 	geo.OnData = func(_ string, ip netip.Addr) (*geoip.Location, error) {
 		l := vfsLocOf(ip)
 		if l == nil {
@@ -1154,7 +1165,7 @@ func vfsNewStack(tb testing.TB, conf *vfsConfig) (s *vfsStack) {
 			},
 		},
 		FilterStorage: fltStrg,
-		GeoIP:         geo,
+		GeoIP:         geoDB,
 		Handler:       vfsUpstream(s),
 		HashMatcher: &agdtest.HashMatcher{
 			OnMatchByPrefix: func(ctx context.Context, _ string) ([]string, bool, error) {
@@ -1757,12 +1768,17 @@ func vfsHasASN(asns []geoip.ASN, l *geoip.Location) bool {
 }
 
 func vfsAccessVerdict(conf *vfsConfig, r *vfsRequest) (v vfsVerdict) {
+	return vfsAccessVerdictLoc(conf, r, vfsLocOf(r.Client))
+}
+
+// vfsAccessVerdictLoc is the reference access decision for a client whose
+// location is loc (nil = unknown).
+func vfsAccessVerdictLoc(conf *vfsConfig, r *vfsRequest, loc *geoip.Location) (v vfsVerdict) {
 	host := r.Host()
 	v.GlobalNet = vfsContains(conf.GlobalNets, r.Client)
 	v.GlobalName, v.GlobalExcepted = vfsRulesBlock(conf.GlobalRules, host, r.QType)
 	if r.Prof >= 0 && !conf.Profiles[r.Prof].Access.Empty {
 		a := conf.Profiles[r.Prof].Access
-		loc := vfsLocOf(r.Client)
 		v.InAllowedNet = vfsContains(a.Allowed, r.Client)
 		v.InBlockedNet = vfsContains(a.Blocked, r.Client)
 		v.InAllowedASN = vfsHasASN(a.AllowedASN, loc)
